@@ -162,6 +162,8 @@ pub struct Model {
     pub sides: HashMap<usize, SideRec>,
     /// the Weak handed to a running new_cyclic closure points to this object
     pub cyc: Vec<u32>,
+    /// handles the program holds temporarily while it calls a method through them
+    pub pins: Vec<u32>,
     pub next_id: u32,
 }
 
@@ -195,6 +197,12 @@ impl Model {
         let mut max = 0u32;
         for x in self.r.iter().chain(self.g.iter()) {
             if *x == Some(id) {
+                min += 1;
+                max += 1;
+            }
+        }
+        for x in self.pins.iter() {
+            if *x == id {
                 min += 1;
                 max += 1;
             }
@@ -275,6 +283,7 @@ impl Model {
     pub fn reach(&self) -> HashSet<u32> {
         let mut seen = HashSet::new();
         let mut st: Vec<u32> = self.r.iter().chain(self.g.iter()).flatten().cloned().collect();
+        st.extend(self.pins.iter().cloned());
         // a value the program owns by value (try_unwrap result) is a root too
         for o in &self.objs {
             if o.val == Val::Unwrapped || o.val == Val::Unboxed {
@@ -311,7 +320,7 @@ impl Model {
             loop {
                 let mut rm = vec![];
                 for &x in g.iter() {
-                    let mut bad = self.r.iter().chain(self.g.iter()).any(|r| *r == Some(x));
+                    let mut bad = self.r.iter().chain(self.g.iter()).any(|r| *r == Some(x)) || self.pins.contains(&x);
                     if !bad {
                         for o in &self.objs {
                             // captures of pending actions and hidden slots of any existing owner are external
